@@ -99,11 +99,16 @@ func cbBuild(p cbP) (*world.World, *cbTruth) {
 		host = "idp.example"
 	}
 	a := msg.SPA()
-	if p.Entity != nil {
+	if p.Entity != nil && xmlLegal(*p.Entity) {
 		a.EntityID = *p.Entity
 	}
 	if _, err := w.Store.RegisterSP("app-a", a.XML()); err != nil {
 		panic(fmt.Sprintf("cbBuild: register: %v", err))
+	}
+	if p.Entity != nil && !xmlLegal(*p.Entity) {
+		// not expressible as SP metadata: only the storage's application -> entity mapping carries it
+		w.Store.SetAppEntity("app-a", *p.Entity)
+		a.EntityID = *p.Entity
 	}
 	u := &world.User{ID: "u-alice", Username: "alice", Email: "alice@example.com", FullName: "Alice Liddell", GivenName: "Alice", Surname: "Liddell"}
 	if p.NoStd {
